@@ -51,6 +51,7 @@ AnnE(e, scopes) ==
     [] e.k = "list" -> [e EXCEPT !.es = AnnSeq(e.es, scopes)]
     [] e.k = "map" -> [e EXCEPT !.ks = AnnSeq(e.ks, scopes), !.vs = AnnSeq(e.vs, scopes)]
     [] e.k = "idx" -> [e EXCEPT !.is = AnnSeq(e.is, scopes)]
+    [] e.k = "attr" -> [e EXCEPT !.o = AnnE(e.o, scopes), !.a = AnnE(e.a, scopes)]
     [] e.k = "slice" -> [e EXCEPT !.o = AnnE(e.o, scopes), !.s = AnnE(e.s, scopes), !.e = AnnE(e.e, scopes), !.st = AnnE(e.st, scopes)]
     [] e.k = "assign" -> [e EXCEPT !.ls = AnnSeq(e.ls, scopes), !.rs = AnnSeq(e.rs, scopes)]
     [] e.k = "call" ->
